@@ -17,6 +17,9 @@ SPEC_OK = 'grammar calc;\nNUM = /[0-9]+/;\nstart = start "+" NUM | NUM;\n'
 INPUTS = {
     # class -> (file content or None, model term)
     "accepted": (SPEC_OK, 'Readable (PAccepted "calc" true true)'),
+    # accepted specifications of other shapes: no terminal at all (the token automaton is empty), string literals only
+    "accepted_no_terminals": ('grammar calc;\nstart = unit unit;\nunit = ;\n', 'Readable (PAccepted "calc" true true)'),
+    "accepted_literals_only": ('grammar calc;\nstart = "a" start | ;\n', 'Readable (PAccepted "calc" true true)'),
     "dfa_fails": ('grammar calc;\nNUM = /[0-9]+/;\nINT = /[0-9][0-9]*/;\nstart = NUM INT;\n', 'Readable (PAccepted "calc" false true)'),
     "lalr_fails": ('grammar calc;\nstart = start "+" start | "x";\n', 'Readable (PAccepted "calc" true false)'),
     "both_fail": ('grammar calc;\nNUM = /[0-9]+/;\nINT = /[0-9][0-9]*/;\nstart = start NUM start | INT;\n', 'Readable (PAccepted "calc" false false)'),
